@@ -203,3 +203,12 @@ add("myfs_reload_step", ["C07", "C18"], ["tu/myfs_step.c"], "h_myfs_reload_step"
 add("vf_sweep", ["C12", "C18"], ["tu/verify_step.c", "$REPO/mtbl/varint.c", "$REPO/mtbl/fixed.c"], "h_verify_sweep", unwind=12, timeout=600,
     strength="B: verify_data_blocks over a symbolic file of 1..3 data blocks (6-byte payloads), v1/v2 framing, any subset of blocks damaged; trailer counts true",
     functions=["verify_data_blocks", "mtbl_varint_decode64", "mtbl_fixed_decode32"], assumptions=["mmap returns the file's bytes; progress output (printf) not modelled"])
+# ---------------------------------------------------------------- metadata trailer, writer creation
+add("md_roundtrip", ["C10", "C09", "C01", "C11", "C19"], ["tu/metadata_step.c", "$REPO/mtbl/fixed.c"], "h_metadata", unwind=440, timeout=300, strength="U",
+    functions=["metadata_write", "metadata_read", "mtbl_metadata_* (ten accessors)", "mtbl_fixed_encode64", "mtbl_fixed_decode64"], assumptions=["x86_64 little-endian model"])
+add("wr_init", ["C08", "C18", "C10", "C09"], ["tu/writer_init.c", "$REPO/mtbl/varint.c"], "h_writer_init", unwind=6, timeout=300, strength="U",
+    functions=["mtbl_writer_init", "mtbl_writer_init_fd", "mtbl_writer_destroy"],
+    assumptions=["POSIX open: with O_CREAT|O_EXCL an existing path fails with EEXIST and is left untouched; dup/lseek/close modelled; block builder creation stubbed (counts)", "ubuf_init(256) real"])
+add("bytes_compare", ["C02", "C08", "C03", "C04", "C09"], ["tu/bytes_compare.c"], "h_bytes_compare", mode="dfcc", enforce="bytes_compare/bytes_compare__spec",
+    replace=["memcmp/memcmp__spec"], unwind=8, timeout=300, strength="U", functions=["bytes_compare"],
+    assumptions=["memcmp replaced by its ISO C contract in witness form (first differing byte decides, as unsigned char)"])
